@@ -19,8 +19,9 @@
    the library's recursion = the model's fuel 8), also after Pack and Unpack into another message object
    (C11_struct_wire_roundtrip_nested). keepzero: a struct field tagged keepzero is written whatever its value,
    and the zero value of every documented Go type marshals (C11_keepzero_written, C11_zero_marshals); what a
-   keepzero zero field reads back as (a nil pointer comes back as a pointer to the zero value) is outside "every
-   non-zero field" and covered by correspondence over the whole matrix. *)
+   keepzero zero field reads back as - the zero value, a pointer to it for pointer targets, "0" in a string target of
+   a Numeric field - and that this value marshals to the same field state (C11_keepzero_readback,
+   C11_keepzero_readback_is_zero). *)
 From Iso Require Import Model.Base Model.Padding Model.Encoding Model.Prefix Model.Bitmap Model.Spec Model.Field Model.Message Model.Marshal Proofs.BaseLemmas Proofs.MarshalProofs Proofs.CompositeProofs Proofs.MessageRoundtrip Proofs.MarshalStruct Proofs.MarshalNested.
 From Coq Require Import Lia.
 
@@ -131,6 +132,20 @@ Print Assumptions C11_keepzero_written.
 Theorem C11_zero_marshals : forall k t, documented k t = true -> exists st, prim_marshal k t (g_zero t) = Ok st.
 Proof. exact zero_marshals. Qed.
 Print Assumptions C11_zero_marshals.
+
+(* what the keepzero zero field reads back as, for every documented cell: zero_back k t (the zero value, a pointer to it
+   where the target is a pointer, "0" in a string target of a Numeric field), whatever the target held; re-marshalling
+   that value gives the same field state, so the message on the wire is the same *)
+Theorem C11_keepzero_readback : forall k t, documented k t = true ->
+  exists st, prim_marshal k t (g_zero t) = Ok st /\ (forall cur, prim_unmarshal st t cur = Ok (zero_back k t)) /\
+             prim_marshal k t (zero_back k t) = Ok st.
+Proof. exact keepzero_readback. Qed.
+Print Assumptions C11_keepzero_readback.
+
+Theorem C11_keepzero_readback_is_zero : forall k t, documented k t = true -> k <> KNumeric \/ (t <> TStr /\ t <> TPtr TStr) ->
+  match t with TLib k' => zero_back k t = VLib (Some (zero_state k')) | TPtr t' => g_deref (zero_back k t) = g_zero t' | _ => zero_back k t = g_zero t end.
+Proof. exact zero_back_is_zero. Qed.
+Print Assumptions C11_keepzero_readback_is_zero.
 
 (* nested structs, Composite.Marshal / Composite.Unmarshal: vok n spells out the values (a documented non-zero cell of a
    primitive subfield; for a composite a pointer to a struct whose tagged fields have pairwise distinct tags naming
